@@ -109,8 +109,9 @@ theorem raw_close (b s V : Nat) (hb : 0 < b) (h1 : b * 2 ^ s ≤ V)
     (hsmall : Nat.log2 b ≤ 52 → V = b * 2 ^ s)
     (hbig : 52 < Nat.log2 b → V < b * 2 ^ s + 2 ^ (Nat.log2 b - 53) * 2 ^ s) :
     specRaw V ≤ codeRaw b s + 1 ∧ codeRaw b s ≤ specRaw V + 1 ∧ floorRaw V ≤ codeRaw b s ∧
-    ((V % (2 * (2 ^ (Nat.log2 b - 53) * 2 ^ s)) + (V - b * 2 ^ s) < 2 ^ (Nat.log2 b - 53) * 2 ^ s ∨
-      2 ^ (Nat.log2 b - 53) * 2 ^ s + (V - b * 2 ^ s) < V % (2 * (2 ^ (Nat.log2 b - 53) * 2 ^ s))) →
+    ((52 < Nat.log2 b → Nat.log2 V = Nat.log2 b + s →
+      (V % (2 * (2 ^ (Nat.log2 b - 53) * 2 ^ s)) + (V - b * 2 ^ s) < 2 ^ (Nat.log2 b - 53) * 2 ^ s ∨
+       2 ^ (Nat.log2 b - 53) * 2 ^ s + (V - b * 2 ^ s) < V % (2 * (2 ^ (Nat.log2 b - 53) * 2 ^ s)))) →
       specRaw V = codeRaw b s) := by
   have hb0 : b ≠ 0 := by omega
   have hP : 0 < 2 ^ s := Nat.pow_pos (by decide)
@@ -182,7 +183,7 @@ theorem raw_close (b s V : Nat) (hb : 0 < b) (h1 : b * 2 ^ s ≤ V)
         rw [show 53 + j + s - 52 = 1 + j + s by omega, hpow 1, Nat.pow_one]
       rw [hspec, hcode, hfloor]
       refine ⟨by omega, by omega, by omega, fun hm => ?_⟩
-      rw [halfUp_eq_rne_of_margin B V h hh h1 hV2 hm]
+      rw [halfUp_eq_rne_of_margin B V h hh h1 hV2 (hm hbit' (by rw [hL, hj]))]
     · -- the exact value is already in the next binade: both give its first pattern
       have hVb' : 2 ^ 54 * h ≤ V := by omega
       have hL : Nat.log2 V = 54 + j + s := by
